@@ -16,6 +16,12 @@ CTYPE = {
 }
 
 
+CFUN = {
+    "tolower": lambda c: c + 32 if 65 <= c <= 90 else c,
+    "toupper": lambda c: c - 32 if 97 <= c <= 122 else c,
+}
+
+
 class CannotEvaluate(Exception):
     pass
 
@@ -50,6 +56,9 @@ def ceval(n, env, prog=None, depth=0):
     """concrete value of a side-effect-free integer expression"""
     s = n
     k = s.k
+    if "$expr" in env and k in ("ArraySubscriptExpr", "UnaryOperator", "MemberExpr") and \
+            s.src.replace(" ", "") in env["$expr"]:
+        return env["$expr"][s.src.replace(" ", "")]
     if k in ("ParenExpr",):
         return ceval(s.child(0), env, prog, depth)
     if k in ("ImplicitCastExpr", "CStyleCastExpr"):
@@ -74,6 +83,11 @@ def ceval(n, env, prog=None, depth=0):
             return env[name]
         raise CannotEvaluate("free variable %s" % name)
     if k == "UnaryOperator" and s.get("op") == "*":
+        q = s.child(0).strip_all_casts()
+        if q.k == "UnaryOperator" and q.get("op") in ("++", "--") and q.get("postfix"):
+            q = q.child(0).strip_all_casts()
+        if q.k == "DeclRefExpr" and ("*" + q["decl"]["name"]) in env:
+            return env["*" + q["decl"]["name"]]
         if "$c" in env and (s.child(0).strip().get("path") or "").endswith("pos"):
             return env["$c"]
         raise CannotEvaluate("dereference")
@@ -114,6 +128,8 @@ def ceval(n, env, prog=None, depth=0):
                 args.append(ceval(a, env, prog, depth))
             except CannotEvaluate:
                 args.append(None)   # e.g. the cursor pointer itself
+        if name in CFUN and args and args[0] is not None:
+            return CFUN[name](args[0]) if 0 <= args[0] <= 255 else args[0]
         if name in CTYPE:
             c = args[0]
             if not (-1 <= c <= 255):
@@ -170,3 +186,62 @@ def predicate_set(f, prog, signed_char=True, extra_args=()):
         if run_function(f, [c] + list(extra_args), prog):
             out.add(b)
     return out
+
+
+def run_to_branch(f, start, env, target, prog=None, limit=400):
+    """interpret straight-line code with stores to scalar locals from block `start` under the concrete
+    environment `env` until the branch whose condition node is `target`; returns the condition's value.
+    Domain: one concrete value per scalar - used only over exhaustively enumerated byte inputs."""
+    env = dict(env)
+    b = start
+    steps = 0
+    while True:
+        steps += 1
+        if steps > limit:
+            raise CannotEvaluate("loop in %s" % f.name)
+        for e in b.elems:
+            op = e.get("op")
+            if e.k in ("BinaryOperator", "CompoundAssignOperator") and op in ("=", "+=", "-=", "|=", "&=", "^="):
+                t = e.child(0).strip()
+                if t.k != "DeclRefExpr" or t.get("tk") == "ptr":
+                    if t.get("tk") == "ptr":
+                        continue
+                    raise CannotEvaluate("store to %s" % t.src)
+                name = t["decl"]["name"]
+                r = ceval(e.child(1), env, prog)
+                if op != "=":
+                    cur = env.get(name)
+                    if cur is None:
+                        raise CannotEvaluate("compound store to unknown %s" % name)
+                    r = {"+=": cur + r, "-=": cur - r, "|=": cur | r, "&=": cur & r, "^=": cur ^ r}[op]
+                bits, sg = t.get("bits"), t.get("signed")
+                if bits and isinstance(r, int):
+                    r &= (1 << bits) - 1
+                    if sg and r >= 1 << (bits - 1):
+                        r -= 1 << bits
+                env[name] = r
+            elif e.k == "UnaryOperator" and op in ("++", "--"):
+                t = e.child(0).strip()
+                if t.get("tk") == "ptr":
+                    continue
+                if t.k == "DeclRefExpr" and t["decl"]["name"] in env:
+                    env[t["decl"]["name"]] += 1 if op == "++" else -1
+            elif e.k == "DeclStmt":
+                for d in e.get("decls", []):
+                    if "init" in d and d["type"].get("tk") in ("int", "bool", "enum"):
+                        env[d["name"]] = ceval(f.nodes[d["init"]], env, prog)
+            elif e.k == "ReturnStmt":
+                raise CannotEvaluate("returned before the comparison")
+        if b.cond is not None and len(b.succs) == 2 and b.term_kind != "SwitchStmt":
+            c = b.cond
+            if c is target or any(x is target for x in c.walk()):
+                return ceval(target, env, prog)
+            v = ceval(c, env, prog)
+            b = b.succs[0] if v else b.succs[1]
+            if b is None:
+                raise CannotEvaluate("pruned edge")
+        else:
+            live = [s_ for s_ in b.succs if s_ is not None]
+            if not live:
+                raise CannotEvaluate("fell off %s" % f.name)
+            b = live[0]
